@@ -7,13 +7,25 @@
  *          connect [refuse] | step [n] | adv <ms> | rx <hex> | peerclose | wmode <0|1|2>
  *          startdt | stopdt | send <asdu-hex> | ic <ca> <qoi> | rd <ca> <ioa> | close | destroy
  *          poke vs=<n> vr=<n> | dump | cbsend <n> (next n ASDU callbacks send a read command from inside the callback)
+ *          (C18) connectfail     connect attempt whose socket cannot be created (TcpSocket_create returns NULL); joins the thread
+ *          (C18) ustartdt | ustopdt   CS104_Connection_sendStartDT / sendStopDT whatever the connection state (use after close)
+ *          (C18) halnull         `halnull <n>`: how often the library handed a NULL socket to Socket_write since the last query
  * trace:   tx <hex> | ev <NAME> | cb asdu <hex> | ret <0|1> | st ... */
 #include <stdio.h>
 #include <stdlib.h>
 #include <string.h>
 #include <pthread.h>
 #include "simhal.h"
+/* (C18) the simulated HAL tolerates a NULL socket, the real one (socket_linux.c Socket_write) dereferences it: count such
+   calls; socket creation can be made to fail.  Nothing is printed unless a script asks with `halnull`. */
+static int hal_null_calls = 0, fail_socket_create = 0;
+static int h_Socket_write(Socket s, uint8_t* b, int n) { if (!s) hal_null_calls++; return Socket_write(s, b, n); }
+static Socket h_TcpSocket_create(void) { if (fail_socket_create) return NULL; return TcpSocket_create(); }
+#define Socket_write h_Socket_write
+#define TcpSocket_create h_TcpSocket_create
 #include "cs104_connection.c"
+#undef Socket_write
+#undef TcpSocket_create
 
 static CS104_Connection con = NULL;
 static Socket sock = NULL;
@@ -96,6 +108,7 @@ static void teardown(void)
     sim_last_client_socket = NULL;
     gate_allowed = 0; at_gate = 0; thread_done = 1; freerun = 0; cb_send_left = 0;
     Sim_reset(); Sim_setTime(1000000); cfg_default();
+    hal_null_calls = 0; fail_socket_create = 0;
 }
 
 int main(void)
@@ -143,6 +156,23 @@ int main(void)
             if (old && old != sock) Sim_freeSocket(old);
             peer_ns = 0; peer_seen = 0;
         }
+        else if (!strcmp(cmd, "connectfail")) {
+            /* the library gives no event we could wait for if it forgets to report the failure: join the thread instead */
+            if (!con) {
+                con = CS104_Connection_create("server", 2404);
+                CS104_Connection_setConnectionHandler(con, conn_handler, NULL);
+            }
+            else { release_thread(); }
+            pthread_mutex_lock(&mx); thread_done = 0; at_gate = 0; gate_allowed = 0; freerun = 1; pthread_mutex_unlock(&mx);
+            fail_socket_create = 1;
+            CS104_Connection_connectAsync(con);
+            CS104_Connection_close(con);
+            fail_socket_create = 0;
+            pthread_mutex_lock(&mx); thread_done = 1; pthread_mutex_unlock(&mx);
+        }
+        else if (!strcmp(cmd, "ustartdt")) { if (con) CS104_Connection_sendStartDT(con); }
+        else if (!strcmp(cmd, "ustopdt")) { if (con) CS104_Connection_sendStopDT(con); }
+        else if (!strcmp(cmd, "halnull")) { printf("halnull %d\n", hal_null_calls); hal_null_calls = 0; }
         else if (!strcmp(cmd, "step")) {
             int n = 1; sscanf(line, "%*s %d", &n);
             for (int i = 0; i < n; i++) {
